@@ -11,7 +11,13 @@ use async_std::io::ReadExt;
 use rayon::prelude::*;
 use std::collections::BTreeMap;
 
-pub fn port_pair(cfg: Cfg, order: Order, alpha: Alphabet, init: Init, label_extra: &str) -> PairSpace {
+pub fn port_pair(
+    cfg: Cfg,
+    order: Order,
+    alpha: Alphabet,
+    init: Init,
+    label_extra: &str,
+) -> PairSpace {
     let ops = alpha.all_ops();
     let (c1, i1) = (cfg.clone(), init.clone());
     let (c2, i2) = (cfg.clone(), init.clone());
@@ -22,13 +28,25 @@ pub fn port_pair(cfg: Cfg, order: Order, alpha: Alphabet, init: Init, label_extr
         alphabet: alpha,
         ops,
         typed_domain: true,
-        mk_a: Box::new(move || Box::new(SyncSys { built: build(&c1, order, &i1), prefix: String::new() })),
-        mk_b: Box::new(move || Box::new(AsyncSys { built: abuild(&c2, order, &i2) })),
+        mk_a: Box::new(move || {
+            Box::new(SyncSys {
+                built: build(&c1, order, &i1),
+                prefix: String::new(),
+            })
+        }),
+        mk_b: Box::new(move || {
+            Box::new(AsyncSys {
+                built: abuild(&c2, order, &i2),
+            })
+        }),
         sig_counts: Default::default(),
     }
 }
 
-fn do_async_rstep(h: &mut Box<dyn vfs::async_vfs::SeekAndRead + Send + Unpin>, s: &RStep) -> StepRes {
+fn do_async_rstep(
+    h: &mut Box<dyn vfs::async_vfs::SeekAndRead + Send + Unpin>,
+    s: &RStep,
+) -> StepRes {
     match guard(|| match s {
         RStep::Read(n) => {
             let mut buf = vec![0u8; *n];
@@ -56,7 +74,13 @@ fn do_async_rstep(h: &mut Box<dyn vfs::async_vfs::SeekAndRead + Send + Unpin>, s
 }
 
 /// Reader scripts on async read handles against `Cursor` (the same oracle as the sync readers).
-pub fn async_reader_scripts(cfg: &Cfg, base: usize, content: &[u8], depth: usize, vio: &mut Vec<Violation>) -> u64 {
+pub fn async_reader_scripts(
+    cfg: &Cfg,
+    base: usize,
+    content: &[u8],
+    depth: usize,
+    vio: &mut Vec<Violation>,
+) -> u64 {
     let mut steps = reader_steps(content.len() as i64);
     if !cfg.has_phys() {
         steps.extend(crate::handle::extreme_reader_steps());
@@ -156,7 +180,13 @@ struct PlanStats {
 
 /// Poll schedules: every plan with <= k injected Pendings for walks and the composites built on
 /// them, on every tree over the universe; the plan-free async run and the sync twin are the oracle.
-fn poll_schedules(cfg: &Cfg, trees: &[Vec<(String, Node)>], init_base: usize, k: usize, vio: &mut Vec<Violation>) -> PlanStats {
+fn poll_schedules(
+    cfg: &Cfg,
+    trees: &[Vec<(String, Node)>],
+    init_base: usize,
+    k: usize,
+    vio: &mut Vec<Violation>,
+) -> PlanStats {
     let ops: Vec<Op> = vec![
         Op::Walk("".into()),
         Op::Walk("/a".into()),
@@ -172,7 +202,18 @@ fn poll_schedules(cfg: &Cfg, trees: &[Vec<(String, Node)>], init_base: usize, k:
         Op::CreateFile("/a/n".into(), b"n".to_vec()),
         Op::Append("/b".into(), b"y".to_vec()),
     ];
-    let probes: Vec<String> = u22().paths.iter().cloned().chain(["/c".to_string(), "/c/a".to_string(), "/c/b".to_string(), "/a/n".to_string(), "/a/b/c".to_string()]).collect();
+    let probes: Vec<String> = u22()
+        .paths
+        .iter()
+        .cloned()
+        .chain([
+            "/c".to_string(),
+            "/c/a".to_string(),
+            "/c/b".to_string(),
+            "/a/n".to_string(),
+            "/a/b/c".to_string(),
+        ])
+        .collect();
     let res: Vec<(u64, u64, BTreeMap<String, u64>, Vec<Violation>)> = trees
         .par_iter()
         .map(|tree| {
@@ -238,7 +279,11 @@ fn poll_schedules(cfg: &Cfg, trees: &[Vec<(String, Node)>], init_base: usize, k:
             (runs, points, classes, local)
         })
         .collect();
-    let mut st = PlanStats { runs: 0, points: 0, classes: BTreeMap::new() };
+    let mut st = PlanStats {
+        runs: 0,
+        points: 0,
+        classes: BTreeMap::new(),
+    };
     for (r, p, c, v) in res {
         st.runs += r;
         st.points += p;
@@ -253,7 +298,13 @@ fn poll_schedules(cfg: &Cfg, trees: &[Vec<(String, Node)>], init_base: usize, k:
 /// A directory vanishes while a walk is under way: every (tree, removed directory q, walker
 /// position i); the async stream must yield exactly what the sync iterator yields (paths and
 /// the positions of error items) - with no Pending and with one Pending at every await point.
-fn walks_with_vanishing_dirs(cfg: &Cfg, trees: &[Vec<(String, Node)>], init_base: usize, with_plans: bool, vio: &mut Vec<Violation>) -> u64 {
+fn walks_with_vanishing_dirs(
+    cfg: &Cfg,
+    trees: &[Vec<(String, Node)>],
+    init_base: usize,
+    with_plans: bool,
+    vio: &mut Vec<Violation>,
+) -> u64 {
     use futures::stream::StreamExt;
     let res: Vec<(u64, Vec<Violation>)> = trees
         .par_iter()
@@ -362,17 +413,49 @@ fn session_phases(cfg: &Cfg, base: usize, vio: &mut Vec<Violation>) -> u64 {
             let ab = abuild(cfg, Order::Asc, &init);
             let sp = sb.root.join("f").unwrap();
             let ap = ab.root.join("f").unwrap();
-            let observe_s = || (PathApi::exists(&sp).ok(), PathApi::metadata(&sp).ok().map(|m| m.len), PathApi::read_all(&sp).ok());
+            let observe_s = || {
+                (
+                    PathApi::exists(&sp).ok(),
+                    PathApi::metadata(&sp).ok().map(|m| m.len),
+                    PathApi::read_all(&sp).ok(),
+                )
+            };
             let observe_a = || {
                 let x = ABlock(ap.clone());
-                (x.exists().ok(), x.metadata().ok().map(|m| m.len), x.read_all().ok())
+                (
+                    x.exists().ok(),
+                    x.metadata().ok().map(|m| m.len),
+                    x.read_all().ok(),
+                )
             };
-            let mut sh = if append { sp.append_file().ok() } else { sp.create_file().ok() };
-            let mut ah = block_on(async { if append { ap.append_file().await.ok() } else { ap.create_file().await.ok() } });
+            let mut sh = if append {
+                sp.append_file().ok()
+            } else {
+                sp.create_file().ok()
+            };
+            let mut ah = block_on(async {
+                if append {
+                    ap.append_file().await.ok()
+                } else {
+                    ap.create_file().await.ok()
+                }
+            });
             let mut phases: Vec<(&str, _, _)> = vec![];
             runs += 1;
             if sh.is_some() != ah.is_some() {
-                vio.push(Violation { property: "C15".into(), signature: format!("async {}|write-session|open-outcome-differs", cfg.label()), summary: format!("{} on {} with prior {:?}: sync opened = {}, async opened = {}", if append { "append_file" } else { "create_file" }, cfg.label(), prior, sh.is_some(), ah.is_some()), replay: json!({"engine": "session-phases"}) });
+                vio.push(Violation {
+                    property: "C15".into(),
+                    signature: format!("async {}|write-session|open-outcome-differs", cfg.label()),
+                    summary: format!(
+                        "{} on {} with prior {:?}: sync opened = {}, async opened = {}",
+                        if append { "append_file" } else { "create_file" },
+                        cfg.label(),
+                        prior,
+                        sh.is_some(),
+                        ah.is_some()
+                    ),
+                    replay: json!({"engine": "session-phases"}),
+                });
                 continue;
             }
             phases.push(("after-open", observe_s(), observe_a()));
@@ -409,56 +492,238 @@ pub fn run_c15(ctx: &Ctx) -> i32 {
     // the library's async read_dir prints every entry with println!: keep the real stdout clean
     let quiet = Silence::start();
     let ov = Cfg::Ov(vec![Cfg::Mem, Cfg::Mem]);
-    let lower: Init = vec![(1, vec![("/a".to_string(), Node::Dir), ("/a/a".to_string(), Node::File(b"l".to_vec())), ("/b".to_string(), Node::File(b"l".to_vec()))])];
+    let lower: Init = vec![(
+        1,
+        vec![
+            ("/a".to_string(), Node::Dir),
+            ("/a/a".to_string(), Node::File(b"l".to_vec())),
+            ("/b".to_string(), Node::File(b"l".to_vec())),
+        ],
+    )];
     // (a) lock-step
     let mut spaces = vec![
-        port_pair(Cfg::Mem, Order::Asc, alphabet(u22(), &[b"x"], 2, true), vec![], ""),
-        port_pair(Cfg::Mem, Order::Desc, alphabet(u4(), &[b"", b"x"], 2, true), vec![], " desc"),
-        port_pair(Cfg::alt(Cfg::Mem, "/Z"), Order::Asc, alphabet(u4(), &[b"x"], 1, true), vec![], ""),
-        port_pair(ov.clone(), Order::Asc, alphabet(u3(), &[b"x"], 2, true), vec![], " empty"),
-        port_pair(ov.clone(), Order::Asc, alphabet(u3(), &[b"x"], 2, true), lower.clone(), " populated"),
-        port_pair(Cfg::Phys, Order::Asc, alphabet(u3(), &[b"x"], 1, true), vec![], ""),
+        port_pair(
+            Cfg::Mem,
+            Order::Asc,
+            alphabet(u22(), &[b"x"], 2, true),
+            vec![],
+            "",
+        ),
+        port_pair(
+            Cfg::Mem,
+            Order::Desc,
+            alphabet(u4(), &[b"", b"x"], 2, true),
+            vec![],
+            " desc",
+        ),
+        port_pair(
+            Cfg::alt(Cfg::Mem, "/Z"),
+            Order::Asc,
+            alphabet(u4(), &[b"x"], 1, true),
+            vec![],
+            "",
+        ),
+        port_pair(
+            ov.clone(),
+            Order::Asc,
+            alphabet(u3(), &[b"x"], 2, true),
+            vec![],
+            " empty",
+        ),
+        port_pair(
+            ov.clone(),
+            Order::Asc,
+            alphabet(u3(), &[b"x"], 2, true),
+            lower.clone(),
+            " populated",
+        ),
+        port_pair(
+            Cfg::Phys,
+            Order::Asc,
+            alphabet(u3(), &[b"x"], 1, true),
+            vec![],
+            "",
+        ),
         // names: prefix-sharing, dotted, multi-byte (byte offsets in the ported re-rooting code)
-        port_pair(Cfg::Mem, Order::Asc, alphabet(u_names_small(), &[b"x"], 1, true), vec![], " names"),
-        port_pair(Cfg::Mem, Order::Asc, alphabet(Universe::new("U_mb{é,é/a,éa,éa/é}", &["/é", "/é/a", "/éa", "/éa/é"]), &[b"x"], 1, true), vec![], " multi-byte"),
-        port_pair(Cfg::alt(Cfg::Mem, "/a"), Order::Asc, alphabet(u_names_small(), &[b"x"], 1, false), vec![], " names"),
+        port_pair(
+            Cfg::Mem,
+            Order::Asc,
+            alphabet(u_names_small(), &[b"x"], 1, true),
+            vec![],
+            " names",
+        ),
+        port_pair(
+            Cfg::Mem,
+            Order::Asc,
+            alphabet(
+                Universe::new("U_mb{é,é/a,éa,éa/é}", &["/é", "/é/a", "/éa", "/éa/é"]),
+                &[b"x"],
+                1,
+                true,
+            ),
+            vec![],
+            " multi-byte",
+        ),
+        port_pair(
+            Cfg::alt(Cfg::Mem, "/a"),
+            Order::Asc,
+            alphabet(u_names_small(), &[b"x"], 1, false),
+            vec![],
+            " names",
+        ),
         // deeper stackings
-        port_pair(Cfg::Ov(vec![Cfg::Mem, Cfg::Mem, Cfg::Mem]), Order::Asc, alphabet(u3(), &[b"x"], 1, true), vec![(1, vec![("/a".to_string(), Node::Dir)]), (2, vec![("/a/a".to_string(), Node::File(b"m".to_vec())), ("/b".to_string(), Node::Dir)])], " 3 layers"),
-        port_pair(ov.clone(), Order::Asc, alphabet(Universe::new("U_chain3{a,a/a,a/a/a}", &["/a", "/a/a", "/a/a/a"]), &[b"x"], 1, true), vec![(1, vec![("/a".to_string(), Node::Dir), ("/a/a".to_string(), Node::Dir), ("/a/a/a".to_string(), Node::File(b"l".to_vec()))])], " chain in the lower layer"),
-        port_pair(Cfg::alt(ov.clone(), "/Z"), Order::Asc, alphabet(u3(), &[b"x"], 1, true), vec![], ""),
+        port_pair(
+            Cfg::Ov(vec![Cfg::Mem, Cfg::Mem, Cfg::Mem]),
+            Order::Asc,
+            alphabet(u3(), &[b"x"], 1, true),
+            vec![
+                (1, vec![("/a".to_string(), Node::Dir)]),
+                (
+                    2,
+                    vec![
+                        ("/a/a".to_string(), Node::File(b"m".to_vec())),
+                        ("/b".to_string(), Node::Dir),
+                    ],
+                ),
+            ],
+            " 3 layers",
+        ),
+        port_pair(
+            ov.clone(),
+            Order::Asc,
+            alphabet(
+                Universe::new("U_chain3{a,a/a,a/a/a}", &["/a", "/a/a", "/a/a/a"]),
+                &[b"x"],
+                1,
+                true,
+            ),
+            vec![(
+                1,
+                vec![
+                    ("/a".to_string(), Node::Dir),
+                    ("/a/a".to_string(), Node::Dir),
+                    ("/a/a/a".to_string(), Node::File(b"l".to_vec())),
+                ],
+            )],
+            " chain in the lower layer",
+        ),
+        port_pair(
+            Cfg::alt(ov.clone(), "/Z"),
+            Order::Asc,
+            alphabet(u3(), &[b"x"], 1, true),
+            vec![],
+            "",
+        ),
     ];
     if thorough {
-        spaces.push(port_pair(Cfg::Mem, Order::Asc, alphabet(u22(), &[b"", b"x"], 2, true), vec![], " W2"));
-        spaces.push(port_pair(Cfg::Mem, Order::Asc, alphabet(u_names(), &[b"x"], 1, true), vec![], " names"));
-        spaces.push(port_pair(Cfg::Phys, Order::Asc, alphabet(u22(), &[b"x"], 1, true), vec![], " U22"));
-        spaces.push(port_pair(Cfg::alt(Cfg::Phys, "/Z"), Order::Asc, alphabet(u4(), &[b"x"], 1, true), vec![], ""));
-        spaces.push(port_pair(ov.clone(), Order::Asc, alphabet(u4(), &[b"x"], 2, true), lower.clone(), " populated U4"));
-        spaces.push(port_pair(Cfg::Ov(vec![Cfg::Mem, Cfg::Mem, Cfg::Mem]), Order::Asc, alphabet(u4(), &[b"x"], 1, true), vec![(1, vec![("/a".to_string(), Node::Dir)]), (2, vec![("/a/a".to_string(), Node::File(b"m".to_vec())), ("/b".to_string(), Node::Dir)])], " 3 layers U4"));
-        spaces.push(port_pair(Cfg::alt(ov.clone(), "/Z"), Order::Asc, alphabet(u4(), &[b"x"], 1, true), lower.clone(), " populated"));
+        spaces.push(port_pair(
+            Cfg::Mem,
+            Order::Asc,
+            alphabet(u22(), &[b"", b"x"], 2, true),
+            vec![],
+            " W2",
+        ));
+        spaces.push(port_pair(
+            Cfg::Mem,
+            Order::Asc,
+            alphabet(u_names(), &[b"x"], 1, true),
+            vec![],
+            " names",
+        ));
+        spaces.push(port_pair(
+            Cfg::Phys,
+            Order::Asc,
+            alphabet(u22(), &[b"x"], 1, true),
+            vec![],
+            " U22",
+        ));
+        spaces.push(port_pair(
+            Cfg::alt(Cfg::Phys, "/Z"),
+            Order::Asc,
+            alphabet(u4(), &[b"x"], 1, true),
+            vec![],
+            "",
+        ));
+        spaces.push(port_pair(
+            ov.clone(),
+            Order::Asc,
+            alphabet(u4(), &[b"x"], 2, true),
+            lower.clone(),
+            " populated U4",
+        ));
+        spaces.push(port_pair(
+            Cfg::Ov(vec![Cfg::Mem, Cfg::Mem, Cfg::Mem]),
+            Order::Asc,
+            alphabet(u4(), &[b"x"], 1, true),
+            vec![
+                (1, vec![("/a".to_string(), Node::Dir)]),
+                (
+                    2,
+                    vec![
+                        ("/a/a".to_string(), Node::File(b"m".to_vec())),
+                        ("/b".to_string(), Node::Dir),
+                    ],
+                ),
+            ],
+            " 3 layers U4",
+        ));
+        spaces.push(port_pair(
+            Cfg::alt(ov.clone(), "/Z"),
+            Order::Asc,
+            alphabet(u4(), &[b"x"], 1, true),
+            lower.clone(),
+            " populated",
+        ));
     }
     let lim = limits(ctx);
     let mut stats = vec![];
     let mut vio = vec![];
     for s in spaces {
         let (st, v) = bfs(&s, &lim);
-        quiet.say(&format!("  [{}] states={} transitions={} depth={} fixpoint={} violations={}/{} ({:.1}s)", st.label, st.states, st.transitions, st.max_depth, st.fixpoint, v.len(), st.vio_counts.values().sum::<u64>(), st.wall_s));
+        quiet.say(&format!(
+            "  [{}] states={} transitions={} depth={} fixpoint={} violations={}/{} ({:.1}s)",
+            st.label,
+            st.states,
+            st.transitions,
+            st.max_depth,
+            st.fixpoint,
+            v.len(),
+            st.vio_counts.values().sum::<u64>(),
+            st.wall_s
+        ));
         stats.push(st);
         vio.extend(v);
     }
     // (b) reader scripts
     let depth = if thorough { 4 } else { 3 };
     let mut scripts = 0u64;
-    for (cfg, base) in [(Cfg::Mem, 0), (Cfg::alt(Cfg::Mem, "/Z"), 0), (ov.clone(), 1), (Cfg::Phys, 0)] {
+    for (cfg, base) in [
+        (Cfg::Mem, 0),
+        (Cfg::alt(Cfg::Mem, "/Z"), 0),
+        (ov.clone(), 1),
+        (Cfg::Phys, 0),
+    ] {
         for c in [&b""[..], &b"a"[..], &b"abcd"[..]] {
             scripts += async_reader_scripts(&cfg, base, c, depth, &mut vio);
         }
     }
-    quiet.say(&format!("  [async reader scripts depth {}] scripts={} violations so far={}", depth, scripts, vio.len()));
+    quiet.say(&format!(
+        "  [async reader scripts depth {}] scripts={} violations so far={}",
+        depth,
+        scripts,
+        vio.len()
+    ));
     // (c) poll schedules
     let trees: Vec<Vec<(String, Node)>> = trees_over(&u22().paths, b"x");
     let k = 2;
     let ps1 = poll_schedules(&Cfg::Mem, &trees, 0, k, &mut vio);
-    quiet.say(&format!("  [poll plans <= {} Pendings, async Mem, {} trees] runs={} await points={}", k, trees.len(), ps1.runs, ps1.points));
+    quiet.say(&format!(
+        "  [poll plans <= {} Pendings, async Mem, {} trees] runs={} await points={}",
+        k,
+        trees.len(),
+        ps1.runs,
+        ps1.points
+    ));
     let small: Vec<Vec<(String, Node)>> = trees_over(&u3().paths, b"l");
     let ps2 = poll_schedules(&ov, &small, 1, if thorough { 2 } else { 1 }, &mut vio);
     quiet.say(&format!("  [poll plans, async Ov[Mem,Mem] with the tree in the lower layer, {} trees] runs={} await points={}", small.len(), ps2.runs, ps2.points));
@@ -469,23 +734,58 @@ pub fn run_c15(ctx: &Ctx) -> i32 {
     quiet.say(&format!("  [walks with a directory vanishing at every walker position, sync vs async (+1 Pending at every await point)] runs={}", vr1 + vr2 + vr3));
     // (e) write sessions observed while the handle is open
     let mut sr = 0;
-    for (cfg, base) in [(Cfg::Mem, 0), (Cfg::alt(Cfg::Mem, "/Z"), 0), (ov.clone(), 0), (ov.clone(), 1), (Cfg::Phys, 0)] {
+    for (cfg, base) in [
+        (Cfg::Mem, 0),
+        (Cfg::alt(Cfg::Mem, "/Z"), 0),
+        (ov.clone(), 0),
+        (ov.clone(), 1),
+        (Cfg::Phys, 0),
+    ] {
         sr += session_phases(&cfg, base, &mut vio);
     }
-    quiet.say(&format!("  [write sessions observed at open / write / flush / drop, sync vs async] sessions={}", sr));
-    let mut ps3 = PlanStats { runs: 0, points: 0, classes: BTreeMap::new() };
+    quiet.say(&format!(
+        "  [write sessions observed at open / write / flush / drop, sync vs async] sessions={}",
+        sr
+    ));
+    let mut ps3 = PlanStats {
+        runs: 0,
+        points: 0,
+        classes: BTreeMap::new(),
+    };
     if thorough {
-        let big: Vec<Vec<(String, Node)>> = trees_over(&u23().paths, b"x").into_iter().filter(|t| t.len() >= 9).take(40).collect();
+        let big: Vec<Vec<(String, Node)>> = trees_over(&u23().paths, b"x")
+            .into_iter()
+            .filter(|t| t.len() >= 9)
+            .take(40)
+            .collect();
         ps3 = poll_schedules(&Cfg::Mem, &big, 0, 3, &mut vio);
-        quiet.say(&format!("  [poll plans <= 3 Pendings, async Mem, {} large trees over U(2,3)] runs={}", big.len(), ps3.runs));
+        quiet.say(&format!(
+            "  [poll plans <= 3 Pendings, async Mem, {} large trees over U(2,3)] runs={}",
+            big.len(),
+            ps3.runs
+        ));
     }
     drop(quiet);
-    let mut xs = Stats { label: "async reader scripts + poll plans".into(), states: (trees.len() + small.len()) as u64, transitions: scripts + ps1.runs + ps2.runs + ps3.runs + vr1 + vr2 + vr3, fixpoint: true, ..Default::default() };
-    for (k, v) in ps1.classes.iter().chain(ps2.classes.iter()).chain(ps3.classes.iter()) {
+    let mut xs = Stats {
+        label: "async reader scripts + poll plans".into(),
+        states: (trees.len() + small.len()) as u64,
+        transitions: scripts + ps1.runs + ps2.runs + ps3.runs + vr1 + vr2 + vr3,
+        fixpoint: true,
+        ..Default::default()
+    };
+    for (k, v) in ps1
+        .classes
+        .iter()
+        .chain(ps2.classes.iter())
+        .chain(ps3.classes.iter())
+    {
         *xs.counters.entry(k.clone()).or_insert(0) += v;
     }
     xs.nontrivial = xs.counters.len() as u64;
-    xs.samples = vec![vec!["walk_dir(\"\") on {/a/, /a/a, /a/b/, /b} with Pending injected at await points [3, 7]".into()]];
+    xs.samples = vec![vec![
+        "walk_dir(\"\") on {/a/, /a/a, /a/b/, /b} with Pending injected at await points [3, 7]"
+            .into(),
+    ]];
     stats.push(xs);
     let mut counts = BTreeMap::new();
     for st in &stats {
@@ -507,12 +807,43 @@ pub fn run_c15(ctx: &Ctx) -> i32 {
 pub fn panic_sweep(ctx: &Ctx) -> (u64, Vec<Violation>) {
     let quiet = Silence::start();
     let ov = Cfg::Ov(vec![Cfg::Mem, Cfg::Mem]);
-    let lower: Init = vec![(1, vec![("/a".to_string(), Node::Dir), ("/a/a".to_string(), Node::File(b"l".to_vec())), ("/b".to_string(), Node::File(b"l".to_vec()))])];
+    let lower: Init = vec![(
+        1,
+        vec![
+            ("/a".to_string(), Node::Dir),
+            ("/a/a".to_string(), Node::File(b"l".to_vec())),
+            ("/b".to_string(), Node::File(b"l".to_vec())),
+        ],
+    )];
     let mut spaces = vec![
-        port_pair(Cfg::Mem, Order::Asc, alphabet(u4(), &[b"x"], 2, true), vec![], " (panic sweep)"),
-        port_pair(Cfg::alt(Cfg::Mem, "/Z"), Order::Asc, alphabet(u3(), &[b"x"], 1, true), vec![], " (panic sweep)"),
-        port_pair(ov.clone(), Order::Asc, alphabet(u3(), &[b"x"], 1, true), lower, " (panic sweep)"),
-        port_pair(Cfg::Mem, Order::Asc, alphabet(u_names_small(), &[b"x"], 1, true), vec![], " names (panic sweep)"),
+        port_pair(
+            Cfg::Mem,
+            Order::Asc,
+            alphabet(u4(), &[b"x"], 2, true),
+            vec![],
+            " (panic sweep)",
+        ),
+        port_pair(
+            Cfg::alt(Cfg::Mem, "/Z"),
+            Order::Asc,
+            alphabet(u3(), &[b"x"], 1, true),
+            vec![],
+            " (panic sweep)",
+        ),
+        port_pair(
+            ov.clone(),
+            Order::Asc,
+            alphabet(u3(), &[b"x"], 1, true),
+            lower,
+            " (panic sweep)",
+        ),
+        port_pair(
+            Cfg::Mem,
+            Order::Asc,
+            alphabet(u_names_small(), &[b"x"], 1, true),
+            vec![],
+            " names (panic sweep)",
+        ),
     ];
     for s in &mut spaces {
         s.typed_domain = false; // calls of the wrong type and on the root included
@@ -525,7 +856,11 @@ pub fn panic_sweep(ctx: &Ctx) -> (u64, Vec<Violation>) {
         n += st.transitions;
         vio.extend(v);
     }
-    for (cfg, base) in [(Cfg::Mem, 0), (ov.clone(), 1), (Cfg::alt(Cfg::Mem, "/Z"), 0)] {
+    for (cfg, base) in [
+        (Cfg::Mem, 0),
+        (ov.clone(), 1),
+        (Cfg::alt(Cfg::Mem, "/Z"), 0),
+    ] {
         for c in [&b""[..], &b"abcd"[..]] {
             n += async_reader_scripts(&cfg, base, c, 3, &mut vio);
         }
